@@ -228,9 +228,11 @@ def clear_array_attributes(entity: Entity, recursive: bool = False):
     if isinstance(entity.workspace.h5file, BytesIO):
         return
 
-    for attribute in ["parts", "vertices", "cells", "values", "prisms", "layers"]:
-        if hasattr(entity, attribute):
-            setattr(entity, f"_{attribute}", None)
+    # (arrays of an entity that was never written cannot be read back)
+    if getattr(entity, "on_file", True):
+        for attribute in ["parts", "vertices", "cells", "values", "prisms", "layers"]:
+            if hasattr(entity, attribute):
+                setattr(entity, f"_{attribute}", None)
 
     if recursive and hasattr(entity, "children"):
         for child in entity.children:
